@@ -243,7 +243,17 @@ func runIdx(r *Run, rule string, fns []*ssa.Function, floor int) {
 				nTrusted++
 			}
 			r.Check(rule, ob.construct, w.InstrPos(ob.in), ob.ok, ob.kind+": "+ob.detail)
+			if r.IdxSites == nil {
+				r.IdxSites = map[string]bool{}
+			}
+			ps := w.Fset.Position(w.InstrPos(ob.in))
+			r.IdxSites[fmt.Sprintf("%s:%d", ps.Filename, ps.Line)] = true
 		}
+		if r.IdxSites == nil {
+			r.IdxSites = map[string]bool{}
+		}
+		// remember which functions were covered (for the compiler cross-reference)
+		r.IdxSites["fn:"+FuncName(f)] = true
 	}
 	p.checkPre(func(construct string, in ssa.Instruction, ok bool, detail string) {
 		pos := token.NoPos
